@@ -158,6 +158,7 @@ Inductive lam2 :=
 Definition apply2 (f : lam2) (a b : val) : val :=
   match f, a, b with
   | L2Add, VInt x, VInt y => VInt (x + y)
+  | L2Add, VList false x, VList false y => VList false (x ++ y)     (* tuple + tuple *)
   | L2Mul, VInt x, VInt y => VInt (x * y)
   | L2Fst, _, _ => a
   | L2Snd, _, _ => b
